@@ -265,6 +265,49 @@ func extractBackend(p *Program, name, pkgPath string) (*backend, error) {
 		b.PrepPos[id.Name] = as.Pos()
 		return true
 	})
+	// … or through a helper of the package that prepares its query parameter into the statement
+	// variable it is handed by address: prepare(tx, &v, CONST, …)
+	ast.Inspect(b.Perform.Body, func(n ast.Node) bool {
+		call, ok := n.(*ast.CallExpr)
+		if !ok {
+			return true
+		}
+		fn, ok := calleeOf(info, call).(*types.Func)
+		if !ok || fn.Pkg() != pk.Types {
+			return true
+		}
+		pi, qi, ok := prepareHelper(pk, fn)
+		if !ok || pi >= len(call.Args) || qi >= len(call.Args) {
+			return true
+		}
+		u, ok := ast.Unparen(call.Args[pi]).(*ast.UnaryExpr)
+		if !ok || u.Op != token.AND {
+			b.Problems = append(b.Problems, "statement prepared by "+fn.Name()+" is not stored in a variable at "+p.pos(call.Pos()))
+			return true
+		}
+		id, ok := ast.Unparen(u.X).(*ast.Ident)
+		if !ok {
+			b.Problems = append(b.Problems, "statement prepared by "+fn.Name()+" is not stored in a variable at "+p.pos(call.Pos()))
+			return true
+		}
+		arg := call.Args[qi]
+		cn := ""
+		if aid, ok := ast.Unparen(arg).(*ast.Ident); ok {
+			if _, ok := info.Uses[aid].(*types.Const); ok {
+				cn = aid.Name
+			}
+		}
+		if cn == "" {
+			if _, ok := constString(info, arg); ok {
+				cn = "<literal>"
+			} else {
+				cn = "<non-constant>"
+			}
+		}
+		b.Prepares[id.Name] = append(b.Prepares[id.Name], cn)
+		b.PrepPos[id.Name] = call.Pos()
+		return true
+	})
 
 	// arms
 	for _, st := range b.Switch.Body.List {
@@ -668,6 +711,42 @@ func (env *localEnv) norm(e ast.Expr) string {
 	}
 	obj := info.Uses[id]
 	defs := env.defs[obj]
+	// P0: handed back by a helper of the package
+	if sub, re, ok := env.helperResult(id); ok {
+		// P4 through a helper: `if len(tags) == 0 { return nil, nil } … return util.ToPointer(string(json)), nil`
+		if call, ok := sub.isCall(re, pkgUtil, "ToPointer"); ok && len(call.Args) == 1 {
+			inner := ast.Unparen(call.Args[0])
+			if conv, ok := inner.(*ast.CallExpr); ok && len(conv.Args) == 1 {
+				inner = ast.Unparen(conv.Args[0])
+			}
+			if tid, ok := inner.(*ast.Ident); ok {
+				if js := sub.norm(tid); strings.HasPrefix(js, "json(") {
+					field := strings.TrimSuffix(strings.TrimPrefix(js, "json("), ")")
+					guarded := false
+					ast.Inspect(sub.fd.Body, func(n ast.Node) bool {
+						ifs, ok := n.(*ast.IfStmt)
+						if !ok || !terminates(ifs.Body.List) {
+							return true
+						}
+						if be, ok := ast.Unparen(ifs.Cond).(*ast.BinaryExpr); ok && be.Op == token.EQL {
+							if lc, ok := ast.Unparen(be.X).(*ast.CallExpr); ok && exprString(lc.Fun) == "len" && len(lc.Args) == 1 {
+								if pth, ok := sub.path(lc.Args[0]); ok && pth == field && exprString(be.Y) == "0" {
+									guarded = true
+								}
+							}
+						}
+						return true
+					})
+					if guarded {
+						return "jsonOrNull(" + field + ")"
+					}
+				}
+			}
+		}
+		if r := sub.norm(re); !strings.HasPrefix(r, "?") {
+			return r
+		}
+	}
 	// P1/P2: a single defining assignment from json.Marshal / strings.ReplaceAll
 	if len(defs) == 1 {
 		if as, ok := defs[0].(*ast.AssignStmt); ok && len(as.Rhs) == 1 {
@@ -847,6 +926,19 @@ func (env *localEnv) helperResult(id *ast.Ident) (*localEnv, ast.Expr, bool) {
 						}
 					}
 				}
+			}
+			// `return nil, nil`: the value stays its zero value (the variable of the inlined form was
+			// declared without a value and assigned only in the other branch)
+			zeroExit := !errExit && len(rs.Results) == fsig.Results().Len() && ast.Node(rs) != ast.Node(fd.Body.List[len(fd.Body.List)-1])
+			if zeroExit {
+				for _, r := range rs.Results {
+					if id, isId := ast.Unparen(r).(*ast.Ident); !isId || id.Name != "nil" {
+						zeroExit = false
+					}
+				}
+			}
+			if zeroExit {
+				return true
 			}
 			if !errExit || ast.Node(rs) == ast.Node(fd.Body.List[len(fd.Body.List)-1]) {
 				nret++
@@ -1053,4 +1145,55 @@ func (env *localEnv) constOnlyString(e ast.Expr, depth int) (string, bool) {
 		return strings.Join(parts, " | "), true
 	}
 	return "", false
+}
+
+// prepareHelper: fn prepares its query parameter (index qi) on the transaction it is given and
+// stores the statement through its **sql.Stmt parameter (index pi).
+func prepareHelper(pk *packages.Package, fn *types.Func) (pi, qi int, ok bool) {
+	fd := funcDeclOf(pk, fn)
+	if fd == nil || fd.Body == nil {
+		return 0, 0, false
+	}
+	info := pk.TypesInfo
+	sig := fn.Type().(*types.Signature)
+	parIdx := func(o types.Object) int {
+		for i := 0; i < sig.Params().Len(); i++ {
+			if sig.Params().At(i) == o {
+				return i
+			}
+		}
+		return -1
+	}
+	pi, qi = -1, -1
+	var prepared types.Object
+	ast.Inspect(fd.Body, func(n ast.Node) bool {
+		switch x := n.(type) {
+		case *ast.AssignStmt:
+			if len(x.Rhs) == 1 {
+				if call, isCall := ast.Unparen(x.Rhs[0]).(*ast.CallExpr); isCall {
+					if f2, isFn := calleeOf(info, call).(*types.Func); isFn && f2.Pkg() != nil && f2.Pkg().Path() == "database/sql" && strings.HasPrefix(f2.Name(), "Prepare") && len(call.Args) >= 1 {
+						if aid, isId := ast.Unparen(call.Args[len(call.Args)-1]).(*ast.Ident); isId {
+							qi = parIdx(info.Uses[aid])
+						}
+						if lid, isId := x.Lhs[0].(*ast.Ident); isId {
+							prepared = info.Defs[lid]
+							if prepared == nil {
+								prepared = info.Uses[lid]
+							}
+						}
+					}
+				}
+			}
+			// *p = s
+			for i, l := range x.Lhs {
+				if st, isStar := ast.Unparen(l).(*ast.StarExpr); isStar && i < len(x.Rhs) {
+					if pid, isId := ast.Unparen(st.X).(*ast.Ident); isId && prepared != nil && isObj(info, x.Rhs[i], prepared) {
+						pi = parIdx(info.Uses[pid])
+					}
+				}
+			}
+		}
+		return true
+	})
+	return pi, qi, pi >= 0 && qi >= 0
 }
